@@ -195,6 +195,22 @@ func zooCases(thorough bool) []zooCase {
 			}
 		}
 	}
+	// --- WITHOUT ROWID primary keys that repeat a column under another collation (stored twice), and that
+	// share their index with a UNIQUE constraint of another sort order
+	for pi, def := range []string{
+		"CREATE TABLE z (a, b TEXT COLLATE NOCASE, c, d, PRIMARY KEY (b, b COLLATE BINARY)) WITHOUT ROWID",
+		"CREATE TABLE z (a, b TEXT COLLATE NOCASE, c, d, PRIMARY KEY (a, b COLLATE RTRIM DESC, b)) WITHOUT ROWID",
+		"CREATE TABLE z (a, b, c, d, UNIQUE (b), PRIMARY KEY (b DESC)) WITHOUT ROWID",
+		"CREATE TABLE z (a, b, c, d, PRIMARY KEY (b DESC), UNIQUE (b)) WITHOUT ROWID",
+		"CREATE TABLE z (a, b, c, d, UNIQUE (c DESC, b), PRIMARY KEY (c, b DESC)) WITHOUT ROWID",
+	} {
+		stmts := []string{def, "CREATE INDEX zi0 ON z (d, a)", "CREATE INDEX zi1 ON z (a DESC)"}
+		for i := 0; i < 14; i++ {
+			vals := []string{fmt.Sprint(i % 4), fmt.Sprintf("'%s%d'", []string{"k", "K", "k "}[i%3], i), fmt.Sprint(20 - i), fmt.Sprintf("'d%d'", i%5)}
+			stmts = append(stmts, "INSERT OR IGNORE INTO z VALUES ("+strings.Join(vals, ", ")+")")
+		}
+		out = append(out, zooCase{name: fmt.Sprintf("without-rowid repeated/shared primary key #%d", pi), stmts: stmts})
+	}
 	return out
 }
 
